@@ -525,7 +525,6 @@ func runC07(c *Ctx) {
 	checkGenericErrorDiscipline(c, "pkg/core")
 }
 
-
 // checkMergeKeysState is shared by several properties (the clause is necessary for each of them).
 func checkMergeKeysState(c *Ctx) {
 	p := c.P
